@@ -17,6 +17,13 @@ use tracing::{error, info, warn};
 
 static CURRENT_STREAM_ID: AtomicU32 = AtomicU32::new(1);
 
+/// Verification hook (feature `verif_hooks`): the stream id counter is process-global and starts at 1 in a new
+/// process; the harness restarts the system inside one process and resets it to imitate that.
+#[cfg(feature = "verif_hooks")]
+pub fn verif_reset_stream_id_counter() {
+    CURRENT_STREAM_ID.store(1, Ordering::SeqCst);
+}
+
 impl System {
     pub(crate) async fn load_streams(
         &mut self,
